@@ -135,7 +135,7 @@ def run(ctx):
         # between a successful buildStarted and the registration of the guard there is no way out
         legit = set()
         for x in f.nodes:
-            if x.get("k") == "return" and any(a == "result" and not pol for a, pol in (bf.at_node(x) or frozenset())) and \
+            if x.get("k") == "return" and any((a == "result" or "buildStarted(" in a) and not pol for a, pol in (bf.at_node(x) or frozenset())) and \
                     cfg.path_exists(f, dp, lambda p, e, xp=cfg.pos_of(f, x): p == xp) is None:
                 legit.add(cfg.pos_of(f, x))       # `if (!result) return` right after buildStarted failed
         w = cfg.path_exists_feasible(f, bsp, cfg.is_exit, avoid=lambda p, e: p == dp or p in legit)
